@@ -1,6 +1,6 @@
 import Driver.ParserD
 import GoSSE.Gen.Event
-import GoSSE.Proofs.GenEquiv
+import GoSSE.Proofs.GenEquivEvent
 /-!
 `GPARSE <args of PARSE>`: event.go's `read` **as translated** (`GoSSE/Gen/Event.lean`), reading its fields from the
 hand-written model of `parser.Parser` (which is not translated) through the interface `ParserI`, delivering to a
@@ -11,21 +11,7 @@ and is masked (`-`) on all three sides.
 namespace Driver.GenEventD
 open GoSSE GoSSE.GoRT GoSSE.Spec GoSSE.Model Driver Driver.ParserD
 
-/-- the model's parser as the field source of the translated `read` -/
-def parserI (p : Model.Parser) : ParserI Gen.Field Model.Parser :=
-  { st := p,
-    next := fun p f =>
-      match p.next (p.sc.src.size + p.sc.data.length + 4) with
-      | (some fld, p') => (true, GenEquiv.fieldOf fld, p')
-      | (none, p') => (false, f, p'),
-    err := fun p => match p.err with
-      | .none => none | .eof => some "io.EOF" | .unexpectedEOF => some "parser.ErrUnexpectedEOF"
-      | .read => some "READ" | .tooLong => some "TOOLONG" }
-
-/-- the consumer: what it was given so far and the error it was handed at the end -/
-structure Cons where
-  outs : List Out := []
-  err : Option String := none
+open GoSSE.GenEquiv (parserI Cons yieldOf onRetryOf)
 
 def showErrG : Option String → String
   | none => "nil" | some "io.EOF" => "EOF" | some "parser.ErrUnexpectedEOF" => "UEOF"
@@ -43,14 +29,7 @@ def gparse (args : List String) : String × String :=
     let hand := implRun conn (unhex lid) src (parseCfg cfg) stopAt
     let hs := s!"{showOuts (evs hand.1)} | {showPErr hand.2.1} | - | {wait hand.1}"
     let p0 : Model.Parser := { sc := mkScanner src (parseCfg cfg) }
-    let yield : Gen.Event → Option String → Cons → GoM (Bool × Cons) := fun ev err st =>
-      if err.isSome then pure (true, { st with err := err })
-      else
-        let outs := st.outs ++ [.event { lastEventID := ev.LastEventID, type := ev.Type', data := ev.Data }]
-        pure (!stopped stopAt outs, { st with outs := outs })
-    let onRetry : Option (Int → Cons → GoM Cons) :=
-      if conn then some (fun n st => pure { st with outs := st.outs ++ [.retry n.toNat] }) else none
-    match Gen.read (src.size + 8) (pure (parserI p0)) (unhex lid) onRetry (!conn) yield {} with
+    match Gen.read (src.size + 8) (pure (parserI p0)) (unhex lid) (onRetryOf conn) (!conn) (yieldOf stopAt) {} with
     | .error (.panic m) => ("PANIC " ++ m, hs)
     | .error .fuel => ("FUEL", hs)
     | .ok st => (s!"{showOuts (evs st.outs)} | {showErrG st.err} | - | {wait st.outs}", hs)
